@@ -11,6 +11,8 @@ type To struct {
 	nameAddr *NameAddr
 	addrSpec *AddrSpec
 	params   []KeyValue
+	// text is the value as received; it is written back literally as long as the value is not modified
+	text string
 }
 
 func ParseTo(s string) (*To, error) {
@@ -54,6 +56,7 @@ func ParseTo(s string) (*To, error) {
 		}
 	}
 
+	r.text = s
 	if len(params) == 0 {
 		return r, nil
 	}
@@ -68,6 +71,9 @@ func ParseTo(s string) (*To, error) {
 }
 
 func (t *To) String() string {
+	if t.text != "" {
+		return t.text
+	}
 	buf := bytes.NewBuffer(make([]byte, 0))
 
 	if t.nameAddr != nil {
@@ -96,6 +102,7 @@ func (t *To) GetTag() (string, error) {
 }
 
 func (t *To) AddParam(name string, value string) {
+	t.text = ""
 	for i, param := range t.params {
 		if param.Key == name {
 			t.params[i].Value = value
